@@ -224,10 +224,12 @@ where
             return Ok(vec![]);
         }
 
-        let reader = self.create_reader();
+        // Lock order: page index before mmap (the writer holds the page index while it
+        // writes through the mmap; the other order deadlocks once a file grower queues).
         #[cfg(anydb_verif)]
         rawdb::verif::lock_rw("pages", rawdb::verif::LockMode::Read, &self.pages);
         let pages = self.pages.read();
+        let reader = self.create_reader();
         let real_len = pages.stored_len(Self::PER_PAGE);
         let to = to.min(real_len);
         if from >= to {
